@@ -195,6 +195,12 @@ func runC16ParkChild(res *lp.Result) {
 		}
 		closeDone := closeServerConn()
 		time.Sleep(200 * time.Millisecond)
+		select {
+		case <-closeDone:
+			// the handler goroutine belongs to the connection: Close returning while it runs leaves it behind
+			viol("Close of the server connection returns while a request handler goroutine of that connection is still running (it survives the close)", "")
+		default:
+		}
 		close(rqRelease)
 		waitFor("Close does not return when it was called while a request handler was running", closeDone, 5*time.Second)
 	}
